@@ -399,8 +399,10 @@ impl MatchDebug {
 
         // Try to "write" the value's `fmt::Debug` output to a `Matcher`. This
         // returns an error if the `fmt::Debug` implementation wrote any
-        // characters that did not match the expected pattern.
-        write!(matcher, "{:?}", d).is_ok()
+        // characters that did not match the expected pattern. If the whole
+        // output was written and part of the pattern is left over, the output
+        // was only a prefix of the expected string, which is not a match.
+        write!(matcher, "{:?}", d).is_ok() && matcher.pattern.is_empty()
     }
 }
 
